@@ -1449,6 +1449,68 @@ func verifWireRawEnvelope(in *rawEnvelope) (out *rawEnvelope, err error) { panic
 //@   props C01 C02
 //@   modifies nothing
 //@   ensures result == mtStr(m)
+// The package-level values the contracts treat as constants are never assigned outside the
+// package initialiser (census over every function of the package).
+//@ census [C01,C02,C11] writers global mediaTypeTextPlain : none
+//@ census [C01,C02,C11] writers global mediaTypeApplicationJson : none
+//@ census [C03,C09,C10,C20] writers global defaultServerConfig : none
+//@ census [C16] writers global defaultTCPConfig : none
+//@ census [C17] writers global contextKeySessionID : none
+//@ census [C17] writers global contextKeySessionRemoteNode : none
+//@ census [C17] writers global contextKeySessionLocalNode : none
+//@ globalinv mediaTypeTextPlain == MediaType{Type: "text", Subtype: "plain", Suffix: ""} && mediaTypeApplicationJson == MediaType{Type: "application", Subtype: "json", Suffix: ""}
+//@ func MediaTypeTextPlain :: () (result)
+//@   props C01 C02 C11
+//@   modifies nothing
+//@   ensures [C01,C02,C11] @declared result == MediaType{Type: "text", Subtype: "plain", Suffix: ""} && textOK_MediaType(result)
+//@ func MediaTypeApplicationJson :: () (result)
+//@   props C01 C02 C11
+//@   modifies nothing
+//@   ensures [C01,C02,C11] @declared result == MediaType{Type: "application", Subtype: "json", Suffix: ""} && textOK_MediaType(result)
+//@ func (*JsonDocument).MediaType :: (d) (result)
+//@   props C01 C11
+//@   modifies nothing
+//@   ensures [C01,C11] @declared result == MediaType{Type: "application", Subtype: "json", Suffix: ""}
+//@ func (TextDocument).MediaType :: (d) (result)
+//@   props C01 C11
+//@   modifies nothing
+//@   ensures [C01,C11] @declared result == MediaType{Type: "text", Subtype: "plain", Suffix: ""}
+// The convenience setters keep the declared type in step with the payload (C01: an envelope
+// whose type does not match its content decodes to another document kind).
+//@ func (*Message).SetContent :: (msg, d) (result)
+//@   props C01 C11
+//@   requires msg != nil && d != nil
+//@   modifies msg.Content, msg.Type
+//@   ensures [C01,C11] @typefollowscontent result == msg && msg.Content == d && msg.Type == mediaTypeOf(d)
+//@ func (*Command).SetMethod :: (cmd, method) (result)
+//@   props C11
+//@   requires cmd != nil
+//@   modifies cmd.Method
+//@   ensures [C11] result == cmd && cmd.Method == method
+//@ func (*RequestCommand).SetURI :: (cmd, uri) (result)
+//@   props C11
+//@   requires cmd != nil
+//@   modifies cmd.URI
+//@   ensures [C11] result == cmd && cmd.URI == uri
+//@ func (*Notification).SetEvent :: (not, event) (result)
+//@   props C11
+//@   requires not != nil
+//@   modifies not.Event
+//@   ensures [C11] result == not && not.Event == event
+//@ func (*Notification).SetFailed :: (not, reason) (result)
+//@   props C11
+//@   requires not != nil
+//@   modifies not.Event, not.Reason
+//@   ensures [C11] @failedwithreason result == not && not.Event == NotificationEventFailed && not.Reason == reason
+//@ func NewDocumentContainer :: (d) (result)
+//@   props C01 C11
+//@   requires d != nil
+//@   modifies nothing
+//@   ensures [C01,C11] @typefollowsvalue result != nil && fresh(result) && result.Value == d && result.Type == mediaTypeOf(d)
+//@ func NewDocumentCollection :: (items, t) (result)
+//@   props C01 C11
+//@   modifies nothing
+//@   ensures [C01,C11] @holdsitems result != nil && fresh(result) && result.ItemType == t && result.Total == len(items) && len(result.Items) == len(items)
 //@ func MediaTypePing :: () (result)
 //@   props C01 C11
 //@   modifies nothing
